@@ -1,4 +1,6 @@
 ENGINES = [
+    {"name": "F", "path": "checks/c17.py", "serves_properties": ["C17"],
+     "kind_free_text": "real Pidfile on a scratch directory, gunicorn.pidfile.os/tempfile replaced by proxies (per-instance getpid, model-driven liveness, crash injection)"},
     {"name": "G", "path": "checks/c16.py", "serves_properties": ["C16"],
      "kind_free_text": "real WSGIApplication config load in-process under generated argv / GUNICORN_CMD_ARGS / config file / framework dict"},
     {"name": "W", "path": "vlib/wenv.py", "serves_properties": ["C02", "C05", "C08", "C09", "C15", "C18", "C19"],
@@ -84,4 +86,10 @@ CHECKS = [
              "append options) the effective value must be the most authoritative mention in normal form, every other setting must keep its default, "
              "and every invalid value (alone or below a valid mention) must end in SystemExit != 0.",
      "note": "value families are chosen per validator by the harness (2-4 values each): exhaustive over these families, not over all values; --paste not exercisable (paste.deploy missing)"},
+    {"id": "C17", "engine": "F",
+     "technique": "model-based stateful property testing (Hypothesis operation histories against a path->content model) + exhaustive crash-point injection at every proxied system call",
+     "text": "Histories of create/validate/rename/unlink/foreign-overwrite/owner-death by several instances on two paths run against the real Pidfile "
+             "class (scratch directory, proxied os/tempfile with fake pids) and are compared with a dict model after every step; every system call of "
+             "create and rename is crashed before/after/half-way in 5 starting states and the path must be absent, complete-old or complete-new.",
+     "note": "fake pids with model-driven kill(pid,0); intra-operation races between two masters not injected; crash = process vanishing at a syscall boundary"},
 ]
